@@ -54,6 +54,15 @@ func (n *Net) SetCut(from, to string, v bool) {
 	n.mu.Unlock()
 }
 
+// CutMany applies several directed cuts atomically.
+func (n *Net) CutMany(pairs [][2]string) {
+	n.mu.Lock()
+	for _, p := range pairs {
+		n.cut[p] = true
+	}
+	n.mu.Unlock()
+}
+
 func (n *Net) Heal() {
 	n.mu.Lock()
 	n.cut = map[[2]string]bool{}
